@@ -23,7 +23,7 @@ type Case struct {
 	Extra     int      `json:"extra"`     // validly signed authorised links beyond the threshold
 	Diff      string   `json:"diff"`      // single-point difference applied to link DiffOn ("" = none)
 	DiffOn    int      `json:"diff_on"`
-	Uncounted []string `json:"uncounted"` // unsigned | unauthorised | tampered
+	Uncounted []string `json:"uncounted"` // unsigned | unauthorised | tampered | other-step-functionary | garbage
 	Strict    bool     `json:"strict_rules"`
 	Name      string   `json:"summary_name"`
 	DSSE      bool     `json:"dsse"`
@@ -109,6 +109,7 @@ func build(base string, cs Case) built {
 	keys := map[string]intoto.Key{}
 	var steps []intoto.Step
 	tampered, unauth := gen.Key("ed5"), gen.Key("ed6")
+	other := gen.Key("ed7") // functionary of every step but the chosen one
 	for i := 0; i < cs.Steps; i++ {
 		m, p := baseArts(i)
 		name := stepName(i)
@@ -123,7 +124,7 @@ func build(base string, cs Case) built {
 			pr = [][]string{{"ALLOW", fmt.Sprintf("f%d", i+1)}, {"ALLOW", "g"}, {"DISALLOW", "*"}}
 		}
 		if i != cs.Chosen {
-			k := gen.Key(funcs[0])
+			k := other
 			keys[k.ID] = k.Pub
 			steps = append(steps, gen.Step(name, 1, []string{k.ID}, mr, pr))
 			gen.DumpLink(dir, name, k.ID, gen.MustWrap(gen.Link(name, m, p, "cmd", name), cs.DSSE, k.Full))
@@ -157,6 +158,15 @@ func build(base string, cs Case) built {
 				gen.MustWrap(gen.Link(name, evilM, evilP, "evil"), cs.DSSE).Dump(filepath.Join(dir, name+".aaaaaaaa.link"))
 			case "unauthorised":
 				gen.DumpLink(dir, name, unauth.ID, gen.MustWrap(gen.Link(name, evilM, evilP, "evil"), cs.DSSE, unauth.Full))
+			case "other-step-functionary":
+				// validly signed by a key the layout defines and authorises for the other steps only
+				keys[other.ID] = other.Pub
+				gen.DumpLink(dir, name, other.ID, gen.MustWrap(gen.Link(name, evilM, evilP, "evil"), cs.DSSE, other.Full))
+			case "garbage":
+				// files named like links of the step that do not parse, sorting before, between and after the real ones
+				for _, pre := range []string{"00000000", "88888888", "ffffffff"} {
+					os.WriteFile(filepath.Join(dir, name+"."+pre+".link"), []byte("{\"signed\": {\"_type\": \"link\", "), 0o644)
+				}
 			case "tampered":
 				p := gen.DumpLink(dir, name, tampered.ID, gen.MustWrap(gen.Link(name, m, p, "honest"), cs.DSSE, tampered.Full))
 				gen.EditJSONFile(p, func(doc map[string]any) {
@@ -312,7 +322,14 @@ func run(c *mcx.Ctx) {
 					}
 				}
 				// uncounted links carrying other artifacts: every subset, strict and permissive rules
-				us := [][]string{{"unsigned"}, {"unauthorised"}, {"tampered"}, {"unsigned", "unauthorised"}, {"unsigned", "tampered"}, {"unauthorised", "tampered"}, {"unsigned", "unauthorised", "tampered"}}
+				us := [][]string{{"unsigned"}, {"unauthorised"}, {"tampered"}, {"unsigned", "unauthorised"}, {"unsigned", "tampered"}, {"unauthorised", "tampered"}, {"unsigned", "unauthorised", "tampered"},
+					{"other-step-functionary"}, {"garbage"}, {"other-step-functionary", "garbage"}, {"unsigned", "unauthorised", "tampered", "other-step-functionary", "garbage"}}
+				// a disagreement among the counted links next to unparsable files (every position of the differing link)
+				for k := 2; k <= 3; k++ {
+					for j := 0; j < k; j++ {
+						do(Case{Steps: steps, Chosen: chosen, Threshold: k, Diff: "prod-digest", DiffOn: j, Uncounted: []string{"garbage"}, DSSE: dsse, Strict: true})
+					}
+				}
 				for _, u := range us {
 					for _, strict := range []bool{true, false} {
 						for _, k := range []int{1, 2} {
@@ -346,7 +363,7 @@ func init() {
 	mcx.Register(&mcx.Driver{
 		ID: "C05", Run: run, Replay: replay,
 		Rule: "full product: layouts with 1..3 steps x the step that has several links x threshold 1..3 x 0/1 valid links beyond the threshold x {no difference, one of 13 single-point differences (material/product path added, removed, renamed, re-spelled as ./path, digest changed, algorithm renamed, algorithm added) on link j} x summary name {\"\",x} x {legacy, DSSE}; " +
-			"plus every non-empty subset of {unsigned, unauthorised, tampered} uncounted links carrying other artifacts x strict/permissive rules; each case under EVERY iteration order of the reference-link pick, the link comparison and the counting loop (the comparison loop and every other map range: one order deviation, for cases with <= 2 links in quick and all cases in thorough; quick has at most 3 links per step, thorough 4). Counted links always differ in command and by-products (which is legitimate). " +
+			"plus every non-empty subset of {unsigned, unauthorised, tampered} uncounted links carrying other artifacts, a link validly signed by a functionary of the other steps only, unparsable files named like links of the step (sorting before, between and after the real ones), and those together x strict/permissive rules; a digest difference on each counted link next to the unparsable files; each case under EVERY iteration order of the reference-link pick, the link comparison and the counting loop (the comparison loop and every other map range: one order deviation, for cases with <= 2 links in quick and all cases in thorough; quick has at most 3 links per step, thorough 4). Counted links always differ in command and by-products (which is legitimate). " +
 			"non-trivial = more than one counted link or some uncounted link. states = cases, transitions = choice points passed.",
 		Assumptions: []string{"which links count is known by construction", "iteration order inside dependencies is not owned"},
 	})
